@@ -30,10 +30,15 @@ func (c18) Rule() string {
 		"(the scenario waits for the departure before the upstream lets anything through; the waiters must then be served by a second dial); " +
 		"K11 idle-period histories (idle 20/30/50 ms): 2-4 rounds of 1-3 subscriptions on one option tuple, each round ended by cancel / upstream complete / upstream error so that the connection runs empty, followed by " +
 		"reuse-hold (next round subscribes during the idle period and stays subscribed until two consecutive timers of the idle period have fired), reuse-brief (subscribes and ends at once) or after-close (next round after the connection went away); after the last round no subscriber is left and the connections must go. " +
+		"K12 the K6 situation for MULTI-VALUED headers: the base carries one or two X-Verif-* headers with 2-4 values (name spelled canonical / lower / upper case), plus an identical twin and 4-7 variants that differ in exactly one respect: first / middle / last value, value order (with and without keeping the last value), one value fewer (first or last dropped), one more (prepended or appended), only the last value, the header-name case (same tuple to an HTTP server: sharing or not are both fine), the first value of a second multi-valued header; " +
+		"the oracle is the K6 one: a connection may carry a subscription only if the upstream recorded exactly that subscription's header values, in order, on its upgrade request; " +
+		"K13 heartbeat on healthy connections: PingInterval 90/120/150 ms > PingTimeout = interval/3 > 0, 1-2 connections (graphql-transport-ws / auto, sometimes a graphql-ws one without client pings) with 1-3 subscriptions each, the upstream answers every ping 8/12/20 ms after it arrived; " +
+		"the connections live until 3-4 pings were answered on each while every subscription receives data in round trips (one message per subscription, delivery awaited, 2 ms pause); no connection may be closed, nothing may be lost; " +
 		"K1, K2, K3, K7-resubscribe, K10 and the stress kind run twice: control (no cancel / no deadline) and experiment; the outcome of every subscriber that did not cancel must equal its control outcome. " +
 		"Stress: 2-64 concurrent subscribers over 1-3 option tuples with random cancels (before Subscribe returns - by cancel() or, for 2 in 5 of them, by a context.WithTimeout of 0-2.5 ms on the subscriber's own context -, at the yield point, after return, after k messages) against an upstream that delays connection_ack 0-3 ms. " +
 		"Every run of every kind ends with the cleanup oracle: once no subscriber is left, client Stats() and the upstream's open connections return to zero; a WebSocket connection the upstream still sees open after 100 consecutive timers of max(idle period, 40 ms) is a violation (cleanup.conn-outlives-idle). " +
 		"A case is non-trivial when its window was actually reached (waiters parked while the leaver was still there / yield point hit / connection shared by >=2 subscriptions with a cancel in flight / different tuples observed on different connections / connection observed closing after its last subscription / " +
+		"K12: >=1 pair of different multi-valued-header tuples observed on different connections / K13: >=3 answered pings on a connection that stayed, >=10 round trips / " +
 		"K11: >=1 round verifiably re-used the idling connection (same upstream connection id) and outstayed the idle period, and the connection was then seen closing); distinct by hash of the generated parameters."
 }
 
@@ -47,6 +52,9 @@ func (c18) Assumptions() []string {
 		"cleanup (connections -> 0 once no subscriber is left): 'does not outlive its last subscription by more than the configured idle period' is judged with a 100-fold margin measured in the client's own currency - a chain of 100 consecutive time.AfterFunc timers of max(idle period, 40 ms) run by the harness in the same process, so a starved process delays both alike and no wall-clock value is compared; " +
 			"only a WebSocket connection the upstream still sees open after those 100 timers is convicted; timers that did not fire within the 16 s watchdog, SSE requests still open, or a client Stats() that stays non-zero although the upstream sees nothing open make the case inconclusive",
 		"a deadline that ends before the waiters are parked (K10) or a round that lands on a fresh connection because the idle period was over before it subscribed (K11) only makes the case trivial; the verdicts do not depend on it",
+		"'same headers' is what an HTTP server sees on the upgrade request: canonical header name, every value, in order; option tuples whose headers differ only in the spelling (case) of a header name are the same tuple",
+		"K13: a healthy connection closed by the client's ping timeout is convicted only when (a) the upstream answered every ping it received on it and >= 3 data round trips were completed on it after the last pong was written (the client's single read loop had handled that pong) and (b) the same scenario shows such a closure in three more consecutive runs; otherwise the case is inconclusive (timing). " +
+			"(b) keeps the check clear of a narrow window in the unchanged sendPing/pongOverdue - a pong handled before lastPingSentAt is stored counts as older than the ping - which an upstream that pongs at once hits in about one case out of four (VERIF_C18_INSTANT_PONG=1 shows it; reported separately); the upstream of K13 therefore pongs 8-20 ms late",
 		"loopback TCP through net/http/httptest is part of the trusted base",
 	}
 }
@@ -57,7 +65,8 @@ func (c18) RequiredCounters(string) []string {
 		"fault_victim_errors", "idle_linger_reuse", "k7_ws_idle_close_observed",
 		"scen_K1", "scen_K2", "scen_K3", "scen_K4", "scen_K5", "scen_K6", "scen_K7", "scen_K8", "scen_K9", "scen_stress",
 		"scen_K10", "scen_K11", "cancel_dial.ack.deadline", "cancel_dial.upgrade.deadline", "deadline_leader_left_waiters_parked", "cancel_by-deadline",
-		"idle_history_rounds_reusing_idle_conn", "idle_history_rounds_held_past_idle_period"}
+		"idle_history_rounds_reusing_idle_conn", "idle_history_rounds_held_past_idle_period",
+		"scen_K12", "scen_K13", "multi_value_header_tuple_pairs_on_distinct_conns", "healthy_conn_pings_answered", "healthy_conn_data_round_trips"}
 }
 
 const (
@@ -72,10 +81,10 @@ func mult(tier string) int {
 	return 1
 }
 
-// K10 and K11 were added after the first nine kinds and the stress kind; they take the indices
+// K10 - K13 were added after the first nine kinds and the stress kind; they take the indices
 // behind them so that every older case keeps its index (and random stream).
 func (c18) NumCases(tier string) int {
-	return (9*perKindQuick + stressQuick + 2*perKindQuick) * mult(tier)
+	return (9*perKindQuick + stressQuick + 4*perKindQuick) * mult(tier)
 }
 
 func (p c18) Run(c *fw.Ctx, idx int) fw.Result {
@@ -184,6 +193,50 @@ func (p c18) Run(c *fw.Ctx, idx int) fw.Result {
 		}
 		res.Observe("idle_history_shapes", fmt.Sprintf("idle=%dms%s", pp.IdleMs, shape))
 		res.Nontrivial = held > 0 && exp.WSClosedAfterLast > 0
+	case "K12":
+		pp := genHeaderTuples(r)
+		param = pp
+		exp, pairs, twins := runTuples(pp, "run")
+		emit(&res, kind, nil, exp, param)
+		res.Count("multi_value_header_tuple_pairs_on_distinct_conns", int64(pairs))
+		res.Count("identical_tuples_sharing", int64(twins))
+		for _, d := range pp.Differs[2:] {
+			res.Observe("multi_value_header_variants", d)
+		}
+		res.Nontrivial = pairs > 0
+	case "K13":
+		pp := genHealthyPing(r)
+		param = pp
+		exp, answered, rounds := runHealthyPing(pp, "run")
+		if n := pingClosures(exp); n > 0 && !instantPong {
+			// A healthy connection was closed by the client's ping timeout. The unchanged code has a
+			// narrow window of this kind (see Assumptions); what is judged here is whether a healthy
+			// connection is closed as a rule: the same scenario must show it three more times in a row.
+			again := 0
+			for i := 0; i < 3; i++ {
+				rr, _, _ := runHealthyPing(pp, fmt.Sprintf("repeat%d", i+1))
+				if pingClosures(rr) == 0 {
+					break
+				}
+				again++
+			}
+			res.Count("healthy_conn_ping_closures", int64(n))
+			if again < 3 {
+				res.Count("healthy_conn_ping_closures_not_reproduced", int64(n))
+				dropPingClosures(exp, fmt.Sprintf("timing: a connection whose pings were all answered was closed by the client's ping timeout, but only in %d of %d consecutive runs of the scenario", again+1, again+2))
+			} else {
+				for i := range exp.Devs {
+					if exp.Devs[i].Facts[pingClosureFact] == "true" {
+						exp.Devs[i].Facts["reproduced_in_consecutive_runs"] = "4/4"
+					}
+				}
+			}
+		}
+		emit(&res, kind, nil, exp, param)
+		res.Count("healthy_conn_pings_answered", int64(answered))
+		res.Count("healthy_conn_data_round_trips", int64(rounds))
+		res.Observe("heartbeat_settings", fmt.Sprintf("interval=%dms timeout=%dms pong-delay=%dms", pp.IntervalMs, pp.TimeoutMs, pp.PongDelayMs))
+		res.Nontrivial = answered >= pp.Ticks && rounds >= 10 && exp.Delivered > 0
 	case "K8":
 		mode := "drop"
 		if sub%10 >= 7 {
